@@ -6,6 +6,36 @@ import os, re, sys
 HERE = os.path.dirname(os.path.dirname(os.path.abspath(__file__)))
 
 SPEC = {
+ 'C08': dict(title='Structured Append sequences reassemble to the original message',
+   imports='Ref.IsoData Ref.Spec Model.Bits Model.Segment Model.Version Model.Stream Model.Matrix Model.Encode Model.Sequence Lemmas.PackLemmas Lemmas.VersionLemmas Lemmas.SeqLemmas',
+   intro='''Model/Sequence.v encode_sequence.  The statement "every chunk fits its symbol" is FALSE of the unchanged code (known finding D14
+   `kf_sa_chunk_overflow`): C08_refuted_fit exhibits 71 digits at version 1-L (a chunk of 154 bits in a 152-bit symbol); seq_fits_partial /
+   seq_fits_stream prove the fit for every input on which no chunk overflows.  Chunking, headers, parity, counts and versions hold for ALL inputs.
+   That each symbol decodes to its chunk is C01 (Lemmas/RoundTrip.v) applied to the per-symbol encode_core call exposed by encode_chunks_headers.''',
+   items=[('Lemmas/SeqLemmas.v', ['chunks_partition', 'chunks_count', 'chunks_sizes', 'chunks_bytes_concat', 'xor_all_spec', 'xor_bytes_concat',
+                                  'encode_sequence_multi_shape', 'encode_chunks_headers', 'encode_chunks_versions', 'C08_model_multi',
+                                  'seq_count_bounds', 'seq_never_micro', 'seq_symbol_count', 'seq_fixed_version', 'C08_refuted_fit',
+                                  'seq_fits_partial', 'seq_fits_stream'])]),
+ 'C14': dict(title='arguments are honoured or refused with ValueError; nothing else escapes',
+   imports='Ref.IsoData Ref.Spec Model.Bits Model.Segment Model.Version Model.Stream Model.Matrix Model.Encode Model.Sequence Model.Color Model.Args Lemmas.VersionLemmas Lemmas.ExnLemmas',
+   intro='''Model/Args.v encode_args = encoder.encode with RAW arguments (None / bool / int / ASCII str).  allowed e := ValueError, DataOverflow
+   (a ValueError), UnicodeErr (a ValueError) or LookupErr (unknown codec).  IndexErr, KeyErr, TypeErr, AssertErr, AttributeErr are proved unreachable.
+   Serializer arguments: see the refusal theorems of the format lemma files (C09/C10); command line process behaviour: correspondence only.''',
+   items=[('Lemmas/ExnLemmas.v', ['normalize_version_exn', 'normalize_mode_exn', 'normalize_errorlevel_exn', 'normalize_mask_exn',
+                                  'normalize_version_ok', 'normalize_version_int', 'normalize_version_str_int', 'normalize_version_str_iff', 'normalize_version_upper',
+                                  'normalize_mode_str_iff', 'normalize_mode_lower', 'normalize_errorlevel_str_iff', 'normalize_errorlevel_upper',
+                                  'normalize_mask_int', 'normalize_mask_str_int',
+                                  'encode_args_exn_class_gen', 'encode_args_exn_class_content', 'encode_args_no_internal_error',
+                                  'excluded_H_micro', 'excluded_eci_micro', 'excluded_mode_version', 'excluded_hanzi_micro', 'excluded_version',
+                                  'excluded_mask', 'excluded_mask_micro', 'encode_args_mask_range', 'encode_args_spelling'])]),
+ 'C15': dict(title='encoding is pure: deterministic, history-free, thread-safe, idempotent',
+   imports='Ref.IsoData Ref.Spec Model.Bits Model.Segment Model.Version Model.Stream Model.Matrix Model.Encode Lemmas.VersionLemmas Lemmas.IdemLemmas',
+   intro='''The model is a Gallina FUNCTION: determinism and history independence hold of it by construction; that segno refines this function under every
+   history and in threads is checked by correspondence (sampled).  Proved here: re-encoding with the reported version / level / mask and boosting
+   disabled returns the very same record.  The hypothesis about `mode` is NECESSARY: idem_counterexample shows a global mode that no part uses
+   (parts carrying their own mode) is only checked against the version when a version is requested (contrived; outside the documented content types).''',
+   items=[('Lemmas/IdemLemmas.v', ['encode_idempotent_eq', 'encode_idempotent', 'encode_idempotent_parts', 'encode_idempotent_mode_needed',
+                                   'encode_version_independent_of_mask', 'encode_boost_keeps_version'])]),
  'C02': dict(title='geometry, function patterns, format and version information follow ISO 18004',
    imports='Ref.IsoData Ref.Geometry Ref.Bch Ref.Decoder Ref.Spec Model.Bits Model.Segment Model.Version Model.Stream Model.Matrix Model.Encode Lemmas.TableLemmas Lemmas.GeomLemmas',
    intro='''c02_check rows v level mask = [] (Ref/Spec.v) means: square of the ISO size; every finder / separator / timing / alignment /
@@ -104,7 +134,7 @@ def main():
                 if n not in st:
                     print('WARNING: %s not found in %s' % (n, path), file=sys.stderr)
                     continue
-                lines.append('Theorem %s_%s :\n  %s.\nProof. exact %s. Qed.\n' % (pid, n, st[n], n))
+                lines.append('Theorem %s_%s :\n  %s.\nProof. exact (@%s). Qed.\n' % (pid, n, st[n], n))
                 names.append('%s_%s' % (pid, n))
         lines += ['Print Assumptions %s.' % n for n in names]
         open(os.path.join(HERE, 'theories', 'Props', pid + '.v'), 'w').write('\n'.join(lines) + '\n')
